@@ -88,7 +88,7 @@ ADD_NOTE = {
  'C03': " describe_unit is no longer stubbed in its own harness (it still is in the conversion harnesses); assumes a non-dimensionless argument, as its only caller guarantees.",
  'C06': " (fast_decompose and the unit-string assembly are now covered by their own harnesses; the note above predates them.) Still OUTSIDE: the real decomposition table of the database (a six-entry table is used), substance replies.",
  'C04': " tools/panic_surface.py lists the functions with panic sites that no harness enters (17 of 51 reachable from the query entry points at the time of writing: factorize, fast_decompose, expand_aliases, describe_unit, search_impl, parse_unitlist, parse_function, reply Display impls ...): outside the claim.",
- 'C05': " The note above predates the loop-head induction: the digits ARE now decided, one iteration at a time, within the bounds base 10 / intdigits 1..2 (thorough 1..3) / at most 13 (thorough 14) digits produced before the iteration / budgets Default, 2 and 12 digits (thorough Default, 0, 3, 12; base 2 up to 10 digits; base 16 up to 5 digits with blocks of at most 4). BigInt::size_in_base is replaced by its arithmetic contract (true digit count or one more), BigRat::is_recurring by its contract inside the step (its real code is decided separately). OUTSIDE: integer parts of more than 3 digits, longer runs (e.g. the 1000-digit budget of `to digits`), bases other than 2/10/16.",
+ 'C05': " The note above predates the loop-head induction: the digits ARE now decided, one iteration at a time, within the bounds base 10 / intdigits 1..2 (thorough 1..3) / at most 13 (thorough 14) digits produced before the iteration / budgets Default, 2 and 12 digits (thorough Default, 0, 3, 12; base 2 up to 10 digits; base 16 up to 5 digits with blocks of at most 4). BigInt::size_in_base is replaced by its arithmetic contract (true digit count or one more), BigRat::is_recurring by its contract inside the step (its real code is decided separately). One family of very long states is also decided: 1001..1003-digit integer parts (first ~995 digits fixed) with 998..1003 digits produced under the `to digits` budget. The loop-invariant locals come from the real prologue; only the loop-carried variables are specified. OUTSIDE: other integer parts of more than 3 digits, other long runs, bases other than 2/10/16.",
  'C07': " (canonicalize is now claimed under the stated well-formedness assumption: every unit has a definition, long and short spellings of a prefix carry the same value.)",
  'C14': " Float seconds: NaN, infinities and finite floats up to 2^52 s; beyond that the rounding of v*1000 decides and the value model of floats cannot settle it.",
  'C19': " Engine M bounds: 2 threads x 1 operation, sequential consistency at atomic-call granularity (no weak-memory reordering), sizes <= 2^62.",
